@@ -165,6 +165,37 @@ func verifHarness_C14_backoff_terminated(kind int, second int) {
 	verifReach("C14/T2b")
 }
 
+// T2c (termination during a connection attempt, one schedule): a TCP / UDP client whose connection attempt gets no answer
+// (the peer drops the SYN): closing the endpoint ends provide() with errTerminated, without waiting for the attempt to
+// give up by itself.
+func verifHarness_C14_connect_terminated(udp int, second int) {
+	dials := 0
+	verifSetDialer(func() (net.Conn, error) { dials++; return nil, verifErrOpen })
+	n := verifBareNode(V2, 1, 1)
+	n.ReadTimeout = 30 * time.Second
+	var conf endpointClientConf = EndpointTCPClient{"1.2.3.4:5600"}
+	if udp == 1 {
+		conf = EndpointUDPClient{"1.2.3.4:5600"}
+	}
+	e := &endpointClient{node: n, conf: conf}
+	e.ctx, e.ctxCancel = verifCtx()
+	e.first = second == 1
+	verifDialPending(true)
+	verifTimersPending(true) // no reconnect delay elapses meanwhile
+	done := false
+	var conn io.ReadWriteCloser
+	var perr error
+	blocked := verifRunGoroutines(func() { _, conn, perr = e.provide(); done = true })
+	verifAssert(blocked && !done, "C14/T2c/attempt-in-flight")
+	e.close()
+	blocked = verifRunGoroutines(nil)
+	verifAssert(!blocked && done, "C14/T2c/close-ends-the-connection-attempt")
+	if done {
+		verifAssert(perr == errTerminated && conn == nil, "C14/T2c/closed-endpoint-reports-terminated")
+	}
+	verifReach("C14/T2c")
+}
+
 // scripted listener for the server endpoint
 type verifListener struct {
 	conns  []net.Conn
